@@ -8,7 +8,7 @@ from typing import Any, Callable, Dict, Iterator, List, Optional, Tuple
 
 from . import REPO
 from .families import (Graph, as_named, canonical, deviation_closure, enum_closed, fig_graphs,
-                       is_closed, make_scfg, shards)
+                       get_labeling, is_closed, lab_tag, labelings, make_scfg, set_labeling, shards)
 from .kernel import CpuBudget, shard_map
 from .runner import Acc
 
@@ -86,9 +86,22 @@ def _work(args):
     modname, unit, opts = args
     mod = importlib.import_module(modname)
     acc = Acc()
+    relabel = opts.get("relabel") or {}
     for fam, g in unit_graphs(unit):
         acc.counters[f"graphs[{fam}]"] += 1
         mod.check_graph(g, fam, acc, opts)
+        level = relabel.get(fam)
+        if level is None and fam.startswith("E") and fam[1:].isdigit():
+            level = relabel.get("E>=")
+        if level:
+            # the same graph under other block names / dict insertion orders (families.labelings)
+            try:
+                for lab in labelings(len(g), level):
+                    set_labeling(lab)
+                    acc.counters[f"graphs[{fam}~relabelled:{level}]"] += 1
+                    mod.check_graph(g, fam + "~", acc, opts)
+            finally:
+                set_labeling(None)
     return acc
 
 
@@ -101,6 +114,8 @@ def rotate(items: list, seed: int) -> list:
 
 def sweep(modname: str, spec: Dict[str, Any], opts: Dict[str, Any], seed: int = 0) -> Acc:
     units = rotate(units_for(spec), seed)
+    if spec.get("relabel") and "relabel" not in opts:
+        opts = dict(opts, relabel=spec["relabel"])
     # big units first for balance: keep deterministic order otherwise
     results = shard_map(_work, [(modname, u, opts) for u in units])
     acc = Acc()
@@ -111,6 +126,9 @@ def sweep(modname: str, spec: Dict[str, Any], opts: Dict[str, Any], seed: int = 
 
 def graph_case(g: Graph, fam: str, stage: str, **kw) -> dict:
     d = {"family": fam, "graph": [list(r) for r in g], "stage": stage}
+    lab = get_labeling()
+    if lab is not None:
+        d["labeling"] = {"prefix": lab[0], "names": list(lab[1]), "insertion_order": list(lab[2])}
     d.update(kw)
     return d
 
@@ -230,5 +248,13 @@ def graph_spec(tier: str, light: bool = False) -> Dict[str, Any]:
     emax = (5 if tier == "quick" else 6) - (1 if light and tier != "quick" else 0)
     if os.environ.get("VERIF_E_MAX"):
         emax = int(os.environ["VERIF_E_MAX"])      # opt-in deeper sweep, e.g. VERIF_E_MAX=7 (4.5x10^6 graphs)
-    return {"E": emax, "FIG": True, "LISTS": lists,
+    # the same graphs under other names / insertion orders (families.labelings): every naming of the small classes
+    if tier == "quick":
+        relabel = {"E2": "all", "E3": "all", "E4": "all", "E5": "one" if light else "few", "S2": "one", "D(S1,2)": "one", "FIG": "few"}
+    else:
+        relabel = {"E2": "all", "E3": "all", "E4": "all", "E5": "few" if light else "all", "E6": "one" if light else "few",
+                   "S2": "few", "D(S1,3)": "one", "D(S2,1)": "one", "FIG": "all" if not light else "few", "BC(S)": "one"}
+    if os.environ.get("VERIF_NO_RELABEL"):
+        relabel = {}
+    return {"E": emax, "FIG": True, "LISTS": lists, "relabel": relabel,
             "E6_quarter": tier == "quick" and not light}
